@@ -49,14 +49,19 @@ def gen(rng):
     dumpres = docs.resource([docs.Gen(rng, hostile=0.2).lexicon('d', '1', '1.3')], '1.3')
     forms = [e['lemma']['writtenForm'] for e in a['entries']]
     queries = forms[:4] + [f + 's' for f in forms[:3]] + ['axes', 'wolves', 'nope', 'runs', 'lights']
-    def ent(i, form):
-        return {'id': f'm-{i}', 'meta': None, 'lemma': {'writtenForm': form, 'partOfSpeech': 'n'},
+    def ent(i, form, pos='n'):
+        return {'id': f'm-{i}', 'meta': None, 'lemma': {'writtenForm': form, 'partOfSpeech': pos},
                 'senses': [{'id': f'm-{i}-s', 'synset': f'm-ss-{i}', 'meta': None}]}
     names = ['axis', 'ax', 'axe', 'box', 'boxis']
     rng.shuffle(names)
     m = {'id': 'm', 'version': '1', 'label': 'morph', 'language': 'en', 'email': 'a@b.c', 'license': 'L', 'meta': None,
          'entries': [ent(nm, nm) for nm in names],
          'synsets': [{'id': f'm-ss-{nm}', 'ili': '', 'partOfSpeech': 'n', 'meta': None} for nm in names]}
+    # homographs in the parts of speech Morphy has no rules for (conjunction, adposition, phrase, unknown, other)
+    others = ['c', 'p', 't', 'u', 'x']
+    rng.shuffle(others)
+    m['entries'] += [ent(f'but-{p_}', 'but', p_) for p_ in others]
+    m['synsets'] += [{'id': f'm-ss-but-{p_}', 'ili': '', 'partOfSpeech': p_, 'meta': None} for p_ in others]
     # lexicons with several declared dependencies: the default expand set and its order
     gd = docs.Gen(rng, hostile=0.0, rich=0.2)
     provs = [gd.lexicon(f'p{i}', '1', '1.1', n_syn=2, n_ent=1, ili_pool=['i1', 'i2', 'i3']) for i in range(5)]
